@@ -11,7 +11,7 @@ from sa.model import contains, enclosing, execute_impl_funcs, superstep_funcs, t
 from sa.summaries import NoRaise
 from sa.variants import Variant, replace_once, sub_first, sub_once
 
-from .common import RUNNER_NO_RAISE_TEXT, call_names, runner_no_raise, template_methods
+from .common import RUNNER_NO_RAISE_TEXT, call_names, flag_locals, runner_no_raise, template_methods
 
 ID = "C12"
 EXPLANATION = (
@@ -145,9 +145,10 @@ def run(ctx) -> None:
                 region_f = ch
         cfg = ctx.cfg(region_f, pred)
         rd = reaching_defs(cfg)
-        ef = specialize({"active": True})
-        if "active" not in {x.id for x in ast.walk(ss.node) if isinstance(x, ast.Name)}:
-            raise AnalysisError(f"{ss.qname}: the 'active' flag that guards emission was not found")
+        flags = flag_locals(region_f, "active")
+        if not flags:
+            raise AnalysisError(f"{ss.qname}: the flag that guards emission (a local read from <dispatcher>.active) was not found")
+        ef = specialize({fl: True for fl in flags})
         cache = {}
 
         def events_at(n: N, cfg=cfg, rd=rd, cache=cache):
